@@ -51,6 +51,12 @@ def cfg_inventory(chk, prog):
     for s in sites:
         base = s["file"].split("/")[-1]
         variant = s["node"] in BODY_NODES or s["attr"] == "cfg_attr"
+        if s["attr"] == "macro":
+            # debug_assert!/cfg!: configuration-dependent only in whether a panic happens.  What the property forbids is a
+            # DIMENSION check that depends on debug_assertions instead of the dim_check features, or an explicit cfg!() switch.
+            import re as _re
+            unit_check = _re.search(r"eq_assume|const_eq|assert_eq_assume|\bunit\b|\bUnit\b|MILLIMETER|SECOND|DIMENSIONLESS", s["text"])
+            variant = s["name"] == "cfg" or bool(unit_check)
         if not variant:
             continue
         n_body += 1
@@ -108,6 +114,19 @@ def run_rules_under(chk, cfg, rules):
         program.ALIAS = {}
 
 
+def assume_false_callers(chk, prog, key="O"):
+    ok = True
+    for fn, body, tag in W.iter_bodies(prog):
+        for bi, t, fnj, res in W.calls_in(body):
+            tgt = res["fn"] if res else fnj
+            if tgt["name"] in ("eq_assume_false", "assert_eq_assume_not_ok") and fn["name"] not in ("assert_eq_assume_not_ok",):
+                chk.evaluated(1, nontrivial=(key, "caller", fn["pretty"]))
+                chk.violation("C19.O", "%s:assume-false-caller:%s" % (key, fn["pretty"]), "%s (%s) calls %s: with checks compiled out this rejects/panics on every input"
+                              % (fn["pretty"], loc(t.get("span")), tgt["name"]), fn=fn["pretty"], file=loc(t.get("span")))
+                ok = False
+    return ok
+
+
 def checks_off(chk, cfg):
     prog = load_config(cfg)
     chk.configs.append(cfg)
@@ -142,14 +161,8 @@ def checks_off(chk, cfg):
         chk.violation("C19.O", key + ":assert_eq_assume_ok", "with checks off Unit::assert_eq_assume_ok can panic", fn=f["pretty"], file=loc(f["span"]))
         ok = False
     # no caller of the 'assume false' family
-    for fn, body, tag in W.iter_bodies(prog):
-        for bi, t, fnj, res in W.calls_in(body):
-            tgt = res["fn"] if res else fnj
-            if tgt["name"] in ("eq_assume_false", "assert_eq_assume_not_ok") and fn["name"] not in ("assert_eq_assume_not_ok",):
-                chk.evaluated(1, nontrivial=(key, "caller", fn["pretty"]))
-                chk.violation("C19.O", "%s:assume-false-caller:%s" % (key, fn["pretty"]), "%s (%s) calls %s: with checks compiled out this rejects/panics on every input"
-                              % (fn["pretty"], loc(t.get("span")), tgt["name"]), fn=fn["pretty"], file=loc(t.get("span")))
-                ok = False
+    if not assume_false_callers(chk, prog, key):
+        ok = False
     # hand-written PartialEq for Quantity == f32 equality of the values
     fe = prog.find_fns(name="eq", self_name="Quantity", trait="PartialEq")
     if len(fe) != 1:
@@ -241,6 +254,9 @@ def run(chk):
             chk.discharge("O:release-profile")
         else:
             chk.violation("C19.O", "release-profile", "release build with dim_check_debug still has unit fields")
+    import selftest
+    selftest.expect(chk, "C19", cfg_inventory, "C19.I", "a cfg-selected statement inside an unaudited function", "cfg_in_body")
+    selftest.expect(chk, "C19", assume_false_callers, "C19.O", "a caller of eq_assume_false", "uses_assume_false")
     chk.assume("equivalence is established at the abstraction of the rule tables (outcome categories, provenance terms, rational functions); bitwise equality of f32 traces is not decided",
                "powf accuracy across std / libm / micromath is the declared exception", "K6 (release) is only checked for the dimension-check switch")
     return ("Configuration independence decided through a common specification: the value-level tables of the other properties are re-evaluated on the MIR of each "
